@@ -180,7 +180,18 @@ fn concat_case(rep: &mut Report, rng: &mut Rng, tb: &Tables, nofast: bool) {
         1 => 1,
         _ => rng.range(0, 20),
     };
-    let vals: Vec<Value> = (0..n).map(|_| gen::gen_value(rng, &cfg, tb, 1)).collect();
+    let mut vals: Vec<Value> = (0..n).map(|_| gen::gen_value(rng, &cfg, tb, 1)).collect();
+    if elisp && rng.chance(1, 3) {
+        // under the Emacs options digit-initial tokens that are not numbers are symbols:
+        // the printer writes such names verbatim and the reader must give them back
+        const DIGIT_NAMES: &[&str] = &["1+", "1-", "1.", "7.", "12.e3", "1e", "1e+", "1.5.6", "1_000", "0x10", "1/2", "9z", "1.0e+INF", "0.0e+NaN", "2d", "1e3x"];
+        for _ in 0..rng.range(1, 3) {
+            let at = rng.below(vals.len() + 1);
+            let name = *rng.pick::<&str>(DIGIT_NAMES);
+            let sym = Value::symbol(name);
+            vals.insert(at, if rng.bool() { sym } else { Value::list(vec![Value::symbol("a"), sym]) });
+        }
+    }
     let expected: Vec<Value> = vals.iter().map(|v| fold(v, &p, &q)).collect();
     let set = if rng.bool() { TriviaSet::WithFormFeed } else { TriviaSet::Basic };
     let mut text = String::new();
